@@ -15867,7 +15867,7 @@ R_<TG_, TA_>::initialEnter() noexcept {
 			const Transition& request = _core.requests[i];
 
 			if (HFSM2_CHECKED(request.destination < STATE_COUNT))
-				applyRequest(control, request, i);
+				applyRequest(control, request, static_cast<Short>(currentTransitions.count() + i));
 		}
 
 		if (_core.registry != backup) {
@@ -15973,7 +15973,7 @@ R_<TG_, TA_>::processTransitions(TransitionSets& currentTransitions) noexcept {
 			const Transition& request = _core.requests[i];
 
 			if (HFSM2_CHECKED(request.destination < STATE_COUNT))
-				applyRequest(control, request, i);
+				applyRequest(control, request, static_cast<Short>(currentTransitions.count() + i));
 		}
 
 		if (_core.registry != backup) {
